@@ -3938,8 +3938,8 @@ let json_relation_cards rtype rel n0 =
                                        | Ok a' ->
                                          (match jint b with
                                           | Ok b' -> Ok (a', b')
-                                          | Err e -> Err e)
-                                       | Err e -> Err e)
+                                          | Err _ -> Err ParsingException)
+                                       | Err _ -> Err ParsingException)
                                     | Err e -> Err e)
                                  | Err e -> Err e)
                            else Err ParsingException
@@ -4033,7 +4033,7 @@ let rec json_parse_tree fuel here parent node0 =
                      (map (fun _ -> PPath here) attrs), prs))
                  | Err e -> Err e)
               | Err e -> Err e)
-           | Err e -> Err e)
+           | Err _ -> Err ParsingException)
         | Err e -> Err e)
      | Err e -> Err e)
 
@@ -4492,10 +4492,12 @@ let rec glencoe_parse_tree fuel finfo_ here parent node0 =
                                                                     | Ok b' ->
                                                                     Ok (a',
                                                                     b')
-                                                                    | Err e ->
-                                                                    Err e)
-                                                                 | Err e ->
-                                                                   Err e)
+                                                                    | Err _ ->
+                                                                    Err
+                                                                    FlamaException)
+                                                                 | Err _ ->
+                                                                   Err
+                                                                    FlamaException)
                                                               | Err e -> Err e)
                                                            | Err e -> Err e)
                                               in
@@ -9855,12 +9857,24 @@ let rec apply_values nm d fs vs = function
 let gen_random_attribute nm dom only_leaf draws m =
   match dom with
   | Some d ->
-    let fs = get_features m in
-    (match decide fs only_leaf nm d draws with
-     | Ok a ->
-       let (vs, _) = a in
-       Ok { root = (apply_values nm d fs vs m.root); ctcs = m.ctcs }
-     | Err e -> Err e)
+    (match d.dom_elems with
+     | [] ->
+       (match d.dom_ranges with
+        | [] -> Err FlamaException
+        | _ :: _ ->
+          let fs = get_features m in
+          (match decide fs only_leaf nm d draws with
+           | Ok a ->
+             let (vs, _) = a in
+             Ok { root = (apply_values nm d fs vs m.root); ctcs = m.ctcs }
+           | Err e -> Err e))
+     | _ :: _ ->
+       let fs = get_features m in
+       (match decide fs only_leaf nm d draws with
+        | Ok a ->
+          let (vs, _) = a in
+          Ok { root = (apply_values nm d fs vs m.root); ctcs = m.ctcs }
+        | Err e -> Err e))
   | None -> Err FlamaException
 
 (** val e_aval : aval -> sexp **)
